@@ -135,14 +135,14 @@ class Signature:
         return [f for f in self.funs if f[2] == sort]
 
 
-def make_signature(rng, prof, bool_args=True, nconsts=(2, 4)):
+def make_signature(rng, prof, bool_args=True, nconsts=(2, 4), xnames=0.125):
     sig = Signature()
     p = PROFILES[prof]
     for i in range(p['usorts'] if p['usorts'] <= 1 else rng.randint(1, p['usorts'])):
         sig.sorts.append('U%d' % i)
     # (one signature in eight names its Boolean constants x0, x1, ..: the names OpenSMT uses for the formal arguments of the
     # functions it prints in models, so that the printer has to rename)
-    bpre = 'x' if rng.random() < 0.125 else 'b'
+    bpre = 'x' if rng.random() < xnames else 'b'
     sig.consts['Bool'] = ['%s%d' % (bpre, i) for i in range(rng.randint(2, 5))]
     for ns in p['nums']:
         pre = 'i' if ns == 'Int' else 'r'
